@@ -25,7 +25,9 @@ BadAll == {BR(w, s, d) : w \in {"slash", "unknown-policy", "bad-keyword"}, s \in
 BadNone == {}
 \* valid rules to combine with rejected calls (same sink retried, other sink, with / without start-stop)
 RulesRej == {PR("a", "s1", TRUE, TRUE), PR("a", "s1", FALSE, FALSE), PR("b", "s2", FALSE, TRUE), IR("t1", "s1", TRUE)}
-EventsRej == {E(<<>>, <<"a", "x">>, "t1", "plain"), E(<<>>, <<>>, "t3", "plain")}
+EventsRej == {E(<<>>, <<"a", "x">>, "t1", "plain")}
+\* for the exported instance: one sink, every reason, do_start_stop_run on / off
+BadOne == {BR(w, "s1", d) : w \in {"slash", "unknown-policy", "bad-keyword"}, d \in BOOLEAN}
 
 \* everything: 2 prefixes x 3 sinks x consume x dss + 3 ids (incl. None) x 3 sinks x dss
 RulesAll == {PR(k, s, c, d) : k \in {"a", "b"}, s \in {"s1", "s2", "s3"}, c \in BOOLEAN, d \in BOOLEAN}
